@@ -65,20 +65,77 @@ func hasHyphen(s string) bool {
 	return false
 }
 
-// alpmGlued: an alpm text in which a letter directly follows a digit (1.0a, 1.0rc1): the inputs
-// for which compareALMPVersionString's text-prefix heuristic (isDirectSuffixComparison) can fire.
+// alpmGlued: the scope of KF-C01-alpm-direct-suffix-heuristic. compareALMPVersionString answers by a
+// text-prefix test (isDirectSuffixComparison) when one pkgver is a strict prefix of the other and
+// the next character is a letter, and by the segment algorithm otherwise; the two disagree on
+// spelling variants, which breaks transitivity. The finding covers the inputs in which some pair
+// of pkgver texts takes the prefix path; with no such pair every comparison runs the segment
+// algorithm alone. A text that is not a plain version (a range with comparators) is in scope when
+// a letter directly follows a digit in it, as before. (inputs only)
 func alpmGlued(eco string, texts ...string) bool {
 	if eco != "alpm" {
 		return false
 	}
 	for _, s := range texts {
-		for i := 1; i < len(s); i++ {
-			if isDig(s[i-1]) && isAlpha(s[i]) {
+		if alpmIsRangeText(s) {
+			for i := 1; i < len(s); i++ {
+				if isDig(s[i-1]) && isAlpha(s[i]) {
+					return true
+				}
+			}
+		}
+	}
+	for i, x := range texts {
+		for j, y := range texts {
+			if i != j && !alpmIsRangeText(x) && !alpmIsRangeText(y) && alpmPrefixPath(alpmPkgver(x), alpmPkgver(y)) {
 				return true
 			}
 		}
 	}
 	return false
+}
+
+func alpmIsRangeText(s string) bool {
+	for i := 0; i < len(s); i++ {
+		switch s[i] {
+		case '<', '>', '=', '!', ' ', ',', '|', '*', '^':
+			return true
+		}
+	}
+	return false
+}
+
+// alpmPkgver: the text between the epoch ("N:") and the pkgrel ("-digits" at the end), trimmed.
+func alpmPkgver(s string) string {
+	s = trimWS(s)
+	for i := 0; i < len(s); i++ {
+		if s[i] == ':' {
+			s = s[i+1:]
+			break
+		}
+	}
+	for i := len(s) - 1; i >= 0; i-- {
+		if s[i] == '-' && i+1 < len(s) {
+			all := true
+			for k := i + 1; k < len(s); k++ {
+				if !isDig(s[k]) {
+					all = false
+				}
+			}
+			if all {
+				return s[:i]
+			}
+		}
+	}
+	return s
+}
+
+// alpmPrefixPath: x is a strict prefix of y and the next character of y is a letter.
+func alpmPrefixPath(x, y string) bool {
+	if len(x) >= len(y) || y[:len(x)] != x {
+		return false
+	}
+	return isAlpha(y[len(x)])
 }
 
 func c01AlpmMixedPkgrel(eco, a, b, c string) bool {
